@@ -472,6 +472,30 @@ func run(r *evid.Run) {
 	if os.Getenv("C01_PHASES") != "" {
 		r.Incomplete("C01_PHASES is set: only a subset of the phases ran")
 	}
+	// Order of execution: the small phases first (so that an internal deadline on a loaded machine still leaves every
+	// clause exercised), then the big enumerations with the heaviest worlds (paths, shadow) ahead of the graph phase.
+	scratch, err := os.MkdirTemp("", "verif-c01-")
+	if err != nil {
+		r.Incomplete("scratch: " + err.Error())
+	} else {
+		defer os.RemoveAll(scratch)
+		if phaseOn("errors") {
+			rn.runErrorPhase(scratch)
+		}
+		if phaseOn("remote") {
+			rn.runRemotePhase()
+		}
+		if phaseOn("dup") {
+			rn.runDupPhase()
+		}
+		if phaseOn("cli") {
+			rn.runCLIPhase(scratch, items)
+		}
+	}
+	sort.SliceStable(items, func(i, j int) bool {
+		rank := map[string]int{"paths": 0, "shadow": 1, "graph": 2}
+		return rank[items[i].phase] < rank[items[j].phase]
+	})
 	r.ParallelFor(len(items), 0, func(i int) {
 		it := items[i]
 		if !phaseOn(it.phase) {
@@ -487,25 +511,6 @@ func run(r *evid.Run) {
 		})
 		rn.runWorld(it.phase, it.spec, w, sels, directFor)
 	})
-
-	scratch, err := os.MkdirTemp("", "verif-c01-")
-	if err != nil {
-		r.Incomplete("scratch: " + err.Error())
-	} else {
-		defer os.RemoveAll(scratch)
-		if phaseOn("remote") {
-			rn.runRemotePhase()
-		}
-		if phaseOn("dup") {
-			rn.runDupPhase()
-		}
-		if phaseOn("cli") {
-			rn.runCLIPhase(scratch, items)
-		}
-		if phaseOn("errors") {
-			rn.runErrorPhase(scratch)
-		}
-	}
 
 	// coverage facts and vacuity guards
 	keys := make([]string, 0, len(rn.cnt))
